@@ -92,8 +92,16 @@ func c20Mapper(rcx *RunCtx) {
 	ntasks := 2 + p.Choose(7)
 	nlook := 6 + p.Choose(30)
 	nkeys := 1 + p.Choose(6)
+	// "for good" also means after many other files: now and then one mapper
+	// sees more distinct sources than any plausible table bound
+	many := 0
+	if rcx.Index%97 == 1 {
+		many = []int{70000, 140000}[p.Choose(2)]
+		ntasks = 1
+		cfg.MaxSteps = 3000000
+	}
 	rcx.Label = "qids.Mapper direct"
-	rcx.Sample = map[string]interface{}{"part": "qids.Mapper get-or-assign", "tasks": ntasks, "lookups_per_task": nlook, "distinct_sources": nkeys}
+	rcx.Sample = map[string]interface{}{"part": "qids.Mapper get-or-assign", "tasks": ntasks, "lookups_per_task": nlook, "distinct_sources": nkeys, "distinct_sources_in_between": many}
 	rcx.Res = simrt.Run(cfg, rcx.Sched, func() {
 		g := &qids.PathGenerator{}
 		m := qids.NewMapper(g)
@@ -102,6 +110,18 @@ func c20Mapper(rcx *RunCtx) {
 		for t := 0; t < ntasks; t++ {
 			simrt.GoNamed(fmt.Sprintf("mapper%d", t), func() {
 				for i := 0; i < nlook; i++ {
+					if many > 0 && i == nlook/2 {
+						for k := 0; k < many; k++ {
+							src := uint64(1000000 + k)
+							q := m.QIDFor(p9.QID{Type: p9.TypeRegular, Path: src})
+							if k%997 == 0 {
+								if d := model.observe(fmt.Sprintf("source path %d", src), q.Path); d != "" {
+									rcx.Find("C20", "mapper-unstable-or-colliding", "mapper", "%s", d)
+								}
+							}
+						}
+						rcx.Count("mapper.lookups_of_many_sources", many)
+					}
 					src := uint64(1000 + simrt.Choose(nkeys))
 					typ := []p9.QIDType{p9.TypeRegular, p9.TypeDir, p9.TypeSymlink}[src%3]
 					q := m.QIDFor(p9.QID{Type: typ, Version: uint32(src), Path: src})
@@ -284,7 +304,7 @@ func init() {
 		},
 		Extra: modeRoundTrip,
 		Quick: 32000, Thorough: 2400000, QuickSecs: 60, ThorSecs: 1200,
-		Rule:  "three simulated parts in rotation, all with scheduling points at atomics and sync.Map operations: (a) 2-8 tasks x 10-50 lookups of (dev, ino) pairs from {0, 1, 0x801, majors/minors >= 2^12, high device bits, 2^64-1} x {0, 1, 2^39-1, 2^39, 2^39+1, 2^63, 2^64-1, neighbours} through the verif-tagged localfs export; (b) 2-8 tasks x 6-36 lookups of 1-6 source paths on one qids.Mapper; (c) 1-3 connections x 1-3 pipelined client threads walking to, getattr-ing and clunking every path of a composefs (static mount, localfs mount on a temp dir, plain files) under the real server. Oracle: get-or-assign map model — the same key maps to the same path for good, different keys to different paths (checked on every observation of the concurrent history, which for this model is equivalent to linearizability against the sequential get-or-assign map); QID type = type of the mode; no runtime abort; the race-detector batch covers the mapper under concurrent requests. Plus, NOT a simulation: the exhaustive 7 x 4096 FileMode <-> os.FileMode round trip, run in the parent and reported separately.",
+		Rule:  "three simulated parts in rotation, all with scheduling points at atomics and sync.Map operations: (a) 2-8 tasks x 10-50 lookups of (dev, ino) pairs from {0, 1, 0x801, majors/minors >= 2^12, high device bits, 2^64-1} x {0, 1, 2^39-1, 2^39, 2^39+1, 2^63, 2^64-1, neighbours} through the verif-tagged localfs export; (b) 2-8 tasks x 6-36 lookups of 1-6 source paths on one qids.Mapper, one run in 97 with 70000 or 140000 other sources looked up in between; (c) 1-3 connections x 1-3 pipelined client threads walking to, getattr-ing and clunking every path of a composefs (static mount, localfs mount on a temp dir, plain files) under the real server. Oracle: get-or-assign map model — the same key maps to the same path for good, different keys to different paths (checked on every observation of the concurrent history, which for this model is equivalent to linearizability against the sequential get-or-assign map); QID type = type of the mode; no runtime abort; the race-detector batch covers the mapper under concurrent requests. Plus, NOT a simulation: the exhaustive 7 x 4096 FileMode <-> os.FileMode round trip, run in the parent and reported separately.",
 		Assume: []string{"process-global localfs state (qids, nextQid) persists across runs of a worker: the oracle is insensitive to absolute values"},
 		Real:   []string{"fsimpl/localfs localToQid/encodeLikely", "fsimpl/qids Mapper/PathGenerator", "fsimpl/composefs", "fsimpl/staticfs", "p9.Server", "p9.FileMode conversions"},
 		Stub:   []string{"transport (simnet)", "raw 9P peers (refcodec)"},
